@@ -629,6 +629,10 @@ class DynamicalMatrixGL(DynamicalMatrixNAC):
 
         """
         self._set_basic_nac_params(nac_params)
+        # Short-range force constants and dd_q0 were computed from the previous
+        # parameters. They are rebuilt at the next run.
+        self._Gonze_force_constants = None
+        self._dd_q0 = None
         if "G_cutoff" in nac_params:
             self._G_cutoff = nac_params["G_cutoff"]
         else:
